@@ -214,9 +214,12 @@ def workload(ctx, lentil):
             f = f.real > 0
         iso = rng.random() < 0.35
         def _alpha(size):
-            k = rng.integers(0, 4)
+            k = rng.integers(0, 5)
             if k == 0:
                 return 1.0 / size
+            if k == 4:
+                # a few parts per million away from critical sampling: still an ordinary alpha
+                return (1.0 / size) * (1 + float(rng.choice([-1, 1])) * 10 ** float(rng.uniform(-9, -4)))
             a = float(np.exp(rng.uniform(np.log(0.002), np.log(0.6))))
             return a if rng.random() < 0.75 else -a
         ar = _alpha(M)
@@ -232,14 +235,18 @@ def workload(ctx, lentil):
             if offset == (0, 0):
                 offset = (3, -2)
         unitary = bool(rng.random() < 0.5)
+        if rng.random() < 0.2:
+            # any truthy / falsy flag selects the normalisation (numpy booleans, 0/1), not only the True/False singletons
+            unitary = [np.bool_(unitary), np.True_ if unitary else np.False_, int(unitary)][int(rng.integers(0, 3))]
         use_out = bool(rng.random() < 0.4)
         form = int(rng.integers(0, 3))
         desc = {'in': [m, n], 'out': [M, N], 'alpha': [ar, ac], 'shift': list(shift), 'offset': list(offset),
-                'unitary': unitary, 'use_out': use_out, 'form': form, 'data': probe.fp_array(f)[:12]}
+                'unitary': bool(unitary), 'flag_type': type(unitary).__name__, 'use_out': use_out, 'form': form,
+                'data': probe.fp_array(f)[:12]}
         bks = ['in:1x1' if (m, n) == (1, 1) else ('in:nonsquare' if m != n else ('in:even' if m % 2 == 0 else 'in:odd')),
                'alpha:iso' if iso else 'alpha:aniso',
                'shift0' if zero_shift else 'shift+offset',
-               f'unitary:{unitary}', 'out:given' if use_out else 'out:none']
+               f'unitary:{bool(unitary)}', 'out:given' if use_out else 'out:none']
         ctx.case(desc, bks, nontrivial=f.size > 1)
         alpha_arg = ar if (iso and form == 0) else ([ar, ac] if form == 1 else np.array([ar, ac]))
         shape_arg = (M, N) if not (M == N and form == 0) else M
@@ -248,6 +255,10 @@ def workload(ctx, lentil):
         kwargs = dict(shape=shape_arg, shift=shift, offset=list(offset) if form == 1 else offset,
                       unitary=unitary)
         fresh = dft2(f, alpha_arg, **kwargs)             # probe checks against the sum
+        if i % 6 == 0:
+            # the same call with every argument passed by position (the documented order)
+            pos = dft2(f, alpha_arg, kwargs['shape'], kwargs['shift'], kwargs['offset'], kwargs['unitary'])
+            ctx.check(np.array_equal(pos, fresh), 'out=same', 'dft2|positional', 'dft2 called positionally differs from the keyword call', desc)
         if use_out:
             buf = (rng.normal(size=(M, N)) + 1j * rng.normal(size=(M, N))).astype(complex)
             res = dft2(f, alpha_arg, out=buf, **kwargs)
@@ -277,9 +288,18 @@ def workload(ctx, lentil):
                   'data': probe.fp_array(F)[:12]}, ['inverse:general'], nontrivial=F.size > 1)
         kw = {} if rng.random() < 0.5 else {'out': np.zeros((M, N), complex)}
         try:
-            idft2(F, (ar, ac) if ar != ac else ar, shape=(M, N), shift=shift, unitary=unitary, **kw)
-        except Exception:
-            pass
+            aarg = (ar, ac) if ar != ac else ar
+            r_kw = idft2(F, aarg, shape=(M, N), shift=shift, unitary=unitary, **kw)
+            # documented positional order: idft2(F, alpha, shape, shift, unitary, out)
+            r_pos = idft2(F, aarg, (M, N), shift, unitary)
+            ctx.check(np.array_equal(r_pos, r_kw), 'out=same', 'idft2|positional', 'idft2 called positionally differs from the keyword call',
+                      {'unitary': unitary})
+            buf = np.full((M, N), 3 + 1j)
+            r_buf = idft2(F, aarg, (M, N), shift, unitary, buf)
+            ctx.check(r_buf is buf and np.array_equal(buf, r_kw), 'out=same', 'idft2|positional-out',
+                      'idft2 with a positional out buffer does not fill it with the values a fresh allocation returns', {'unitary': unitary})
+        except Exception as e:
+            ctx.check(False, 'idft2=sum', f'idft2-driver|raises={type(e).__name__}', str(e), {'shape': [M, N]})
 
     # full-period round trips and Parseval, both flags
     nrt = ctx.count(60, 300)
